@@ -20,7 +20,7 @@ from cv.tlaparse import printed_values
 from cv.tlc import run_tlc, must_ok
 
 LEVEL = "model_checking"
-RTOL = 2e-6          # files carry 10-12 significant digits; the interpolators are exact on in-class data
+RTOL = 5e-8          # observed 2e-9 (pint versus CODATA-2018 constants); files carry 10-12 significant digits
 
 
 def gpa_to_au(x):
